@@ -17,6 +17,9 @@ META = {
               'get_cell_at(i) reads slot i',
         'R3': 'provenance: compute_cell_integral initialises with (this cell, its data) and feeds each tetrahedron of this cell\'s decomposition as (v0, v1, v2, this cell\'s generator); '
               'face integrals are initialised for and fed by the plane index of the tetrahedron (C03.R6)',
+        'R6': 'decomposition with stored faces (structure): a fan per face — state (face f, corner j) yields the tetrahedron with base (w[0], w[j], w[j+1]), w = face_vertices(f), '
+              'all three looked up in the cell\'s vertex list, labelled with faces[f].clipping_plane (the plane all of the face\'s vertices lie in, C15.R7); j runs 1 .. count(f)-2 '
+              '(count-2 triangles per face, none skipped or repeated), then the next face starts at j = 1; None exactly when no face is left; the walk starts at (0, 1)',
         'R5': 'decomposition without stored faces (structure): every vertex of the cell is visited once, in storage order, and yields exactly six tetrahedra t = 0..5 with base '
               '(proj[t], proj[t-1 mod 6], vertex) and label dual[t div 2], where proj[2i] is the projection of the generator onto plane dual[i] and proj[2i+1] its projection onto the '
               'intersection line of planes dual[i+1] and dual[i]; hence all three base points of a tetrahedron lie in the plane it is labelled with (given C19.R2/R3 and C01.R5)',
@@ -34,7 +37,7 @@ def run(ctx):
     for cfg in ctx.configs_used:
         F = ctx.facts(cfg)
         sfx = '' if cfg == 'default' else '@' + cfg
-        fns = (r1, r2, r3, r4, r5) if cfg == 'default' else (r2,)
+        fns = (r1, r2, r3, r4, r5, r6) if cfg == 'default' else (r2,)
         for fn in fns:
             rule = 'C14.' + fn.__name__.upper()
             ctx.guarded(rule, 'evaluate' + sfx, lambda: fn(ctx, F, rule, sfx))
@@ -248,3 +251,121 @@ def r5(ctx, F, rule, sfx):
     lc = [e for e in ip.events if e.callee == load['path']]
     ok = len(lc) == 1 and as_rf(I.get_field(lc[0].fargs[0], 'cur_vertex_idx')).is_zero() and as_rf(I.get_field(lc[0].fargs[0], 'cur_tet_idx')).is_zero()
     ctx.check(rule, 'starts-at-first-vertex' + sfx, ok, '%d load(s)' % len(lc), 'cur_vertex_idx = 0, cur_tet_idx = 0, vertex loaded', where(new), key_extra='start')
+
+
+def r6(ctx, F, rule, sfx):
+    lv = [b for b in F.bodies if 'DecompositionWithFaces' in b['path'] and b['kind'] != 'Closure']
+    nxt = [b for b in lv if b['path'].endswith('::next')]
+    new = [b for b in lv if b['path'].endswith('::new')]
+    if len(nxt) != 1 or len(new) != 1:
+        raise AnalysisIncomplete('with-faces decomposition bodies: next %d, new %d' % (len(nxt), len(new)))
+    nxt, new = nxt[0], new[0]
+    no = [b['path'] for b in F.bodies if b['path'].endswith(('::face_vertices', '::faces', '::face_count', '::face_vertex_count')) and 'ConvexCell' in b['path']]
+    ip = I.Interp(F, no_inline=no)
+    cell = I.Sym(nf.sym_atom('cell'), 'voronoi::convex_cell::ConvexCell<voronoi::convex_cell::WithFaces>')
+    adt = F.adt_by_path.get('voronoi::convex_cell::DecompositionWithFaces')
+    if not adt:
+        raise AnalysisIncomplete('DecompositionWithFaces not found')
+    fs = adt['variants'][0]['fields']
+    us = [f['name'] for f in fs if f['ty'] == 'usize']
+    refs = [f['name'] for f in fs if 'ConvexCell' in f['ty']]
+    if len(us) != 2 or len(refs) != 1:
+        raise AnalysisIncomplete('unexpected layout of DecompositionWithFaces: %s' % [f['name'] for f in fs])
+    # roles of the two counters from the constructor: the one starting at 0 is the face, the one starting at 1 the corner
+    ipn = I.Interp(F, no_inline=no)
+    v0, _ = ipn.call_body(new, [ipn.ref_to(cell)])
+    init = {n: as_rf(I.get_field(v0, n)) for n in us}
+    fname = [n for n in us if init[n].is_zero()]
+    jname = [n for n in us if init[n].is_const() and init[n].const_value() == 1]
+    ok0 = len(fname) == 1 and len(jname) == 1 and repr(I.frozen(I.get_field(v0, refs[0]))) in ('cell', '&cell')
+    ctx.check(rule, 'starts-at-first-face-second-corner' + sfx, ok0, {n: repr(init[n]) for n in us}, 'face 0, corner 1, of the cell handed in', where(new), key_extra='start')
+    if not ok0:
+        return
+    fname, jname = fname[0], jname[0]
+    st = I.St('voronoi::convex_cell::DecompositionWithFaces', 'DecompositionWithFaces', {fname: RF.sym('f'), jname: RF.sym('j'), refs[0]: ip.ref_to(cell)})
+    r = ip.ref_to(st, mut=True)
+    v, _ = ip.call_body(nxt, [r])
+    ctx.evaluations += ip.evaluations + ipn.evaluations
+    wn = where(nxt)
+    some, cond, none_cond = None, None, None
+    for conds, leaf in cases(v):
+        if isinstance(leaf, I.St) and leaf.variant == 'Some':
+            some, cond = leaf.fields[0], conds
+        elif isinstance(leaf, I.St) and leaf.variant == 'None':
+            none_cond = conds
+    FC = 'call:voronoi::convex_cell::ConvexCell::face_count(cell)'
+    okc = cond is not None and [repr(c) for c in cond] in (['(f < %s)' % FC], ['(f != %s)' % FC])
+    ctx.check(rule, 'continues-while-faces-remain' + sfx, okc and some is not None, [repr(c)[-90:] for c in (cond or [])], 'Some iff cur_face_idx < face_count()', wn, key_extra='cond')
+    if some is None:
+        return
+    label = repr(I.frozen(I.get_field(some, 'plane_idx')))
+    vs = [repr(I.frozen(I.get_index(I.get_field(some, 'vertices'), RF.const(i)))).replace(' ', '') for i in range(3)]
+    FV = 'call:voronoi::convex_cell::ConvexCell::face_vertices(cell,f)'
+    want = ['cell.vertices[%s[%s]].loc' % (FV, k) for k in ('0', 'j', '1+j')]
+    ok = vs == want and label == 'call:voronoi::convex_cell::ConvexCell::faces(cell)[f].clipping_plane'
+    ctx.check(rule, 'fan-triangle' + sfx, ok, 'label %s, base %s' % (label[-40:], [x[-28:] for x in vs]), 'label faces[f].clipping_plane, base (V[w[0]], V[w[j]], V[w[j+1]]) with w = face_vertices(f)', wn, key_extra='fan')
+    # state update: a single decision "more corners left in this face"
+    fin = I.read_lv(r.lv)
+    nf_, nj_ = as_rf(I.get_field(fin, fname)), as_rf(I.get_field(fin, jname))
+    leaves = {}
+    dtab.b_leaves(nf_, leaves)
+    dtab.b_leaves(nj_, leaves)
+    CNT = 'call:voronoi::convex_cell::ConvexCell::faces(cell)[f].vertex_count'
+    CNT2 = 'call:voronoi::convex_cell::ConvexCell::face_vertex_count(cell, f)'
+    more = None      # (leaf, polarity): leaf true <=> another corner remains (j + 1 <= count - 2)
+    thr = None
+    live = None
+    f_, j_ = RF.sym('f'), RF.sym('j')
+    for l in leaves.values():
+        if l.op != 'cmp':
+            continue
+        t = repr(l)
+        if 'face_count' in t:
+            live = l
+            continue
+        op, a, b = l.args
+        a, b = as_rf(a), as_rf(b)
+        d = a - b            # the comparison is  d op 0
+        cnts = [x for x in I.atoms_deep(d).values() if repr(x) in (CNT, CNT2)]
+        if len(cnts) != 1:
+            continue
+        c_ = RF.atom(cnts[0])
+        # d = +-(j - count) + const;  normalise to  (j - count) <= T  (leaf true <=> more) or its complement
+        for sign in (1, -1):
+            k = d - sign * (j_ - c_)
+            if not k.is_const():
+                continue
+            kv = k.const_value()
+            o = op if sign == 1 else {'<': '>', '<=': '>=', '>': '<', '>=': '<=', '==': '==', '!=': '!='}[op]
+            kk = kv if sign == 1 else -kv         # (j - count + kk) o 0
+            if o == '<=':
+                more, thr = (l, True), -kk
+            elif o == '<':
+                more, thr = (l, True), -kk - 1
+            elif o == '>':
+                more, thr = (l, False), -kk
+            elif o == '>=':
+                more, thr = (l, False), -kk - 1
+    if more is None:
+        ctx.bad(rule, 'advance' + sfx, 'no decision "corner j+1 <= count-2" found: next face %s, next corner %s' % (repr(nf_)[:120], repr(nj_)[:120]), 'j+1 while j+1 <= count(f)-2, else next face at corner 1', wn, key_extra='advance-shape')
+        return
+    rows = []
+    okadv = True
+    for m in (True, False):
+        def val(leaf):
+            if leaf.key() == more[0].key():
+                return m == more[1]
+            return True      # a face is left (the Some arm)
+        gf = as_rf(dtab.evaluate(nf_, val))
+        gj = as_rf(dtab.evaluate(nj_, val))
+        wf, wj = (f_, j_ + 1) if m else (f_ + 1, RF.const(1))
+        rows.append('%s: face %r, corner %r' % ('more corners' if m else 'face done', gf, gj))
+        okadv = okadv and gf == wf and gj == wj
+    ctx.check(rule, 'advance' + sfx, okadv, '; '.join(rows), 'more corners: (f, j+1); face done: (f+1, 1)', wn, key_extra='advance')
+    ctx.check(rule, 'fan-covers-every-corner' + sfx, thr == -3, 'stays on the face while j <= count %+d' % thr, 'while j + 1 <= count - 2 (last triangle (w[0], w[count-2], w[count-1]))', wn, key_extra='fan-range:%s' % thr)
+    # nothing changes once the faces are exhausted
+    def val_done(leaf):
+        if live is not None and leaf.key() == live.key():
+            op, a, b = leaf.args
+            return op in ('>=', '<=') and not (op == '<')
+        return True
